@@ -319,6 +319,15 @@ class Check:
         self.proof = lean_prove(modules)
         for f in self.proof.failed:
             self.broke("proof", f)
+        if self.tier == "thorough" and self.proof.ok:
+            # independent re-check of the compiled .olean files by the toolchain's `leanchecker`
+            try:
+                rc, out, err = run(["lake", "env", "leanchecker"] + modules, cwd=LEAN_DIR, timeout=3000)
+                self.extra["leanchecker"] = {"modules": modules, "exit": rc, "tail": (out + err)[-300:]}
+                if rc != 0:
+                    self.broke("proof", {"leanchecker": (out + err)[-600:]})
+            except Exception as e:  # noqa: BLE001 - infrastructure (time-out): recorded, no verdict from it
+                self.extra["leanchecker"] = {"modules": modules, "error": str(e)[:200]}
         return self.proof
 
     # ---- finish -----------------------------------------------------------------------------
